@@ -214,7 +214,7 @@ inline Json::Value expectCg(
     }
   }
   int64_t pgscan = c->statv("pgscan", -1);
-  e["pg_scan_cumulative"] = pgscan >= 0 ? J(pgscan) : Json::Value("throws");
+  e["pg_scan_cumulative"] = pgscan >= 0 ? J(pgscan) : Json::Value();
   if (h.have && h.prev["pg_scan_cumulative"].isIntegral() && pgscan >= 0) {
     e["pg_scan_rate"] = J(pgscan - h.prev["pg_scan_cumulative"].asInt64());
   } else {
